@@ -1,0 +1,18 @@
+//go:build verif
+
+package cluster
+
+// Only compiled with the build tag "verif". A PDRegister implementation outside this package
+// (the in-memory register of the verification harness) must be able to do what PDEtcdRegister
+// does after a read or a successful compare-and-swap: store the register's modification index
+// in the unexported epoch field. No behaviour of its own.
+
+// VerifSetEpoch sets the epoch (register modification index) of a replica info.
+func (self *PartitionReplicaInfo) VerifSetEpoch(e EpochType) {
+	self.epoch = e
+}
+
+// VerifSetMetaEpoch sets the epoch of a namespace meta info.
+func (self *NamespaceMetaInfo) VerifSetMetaEpoch(e EpochType) {
+	self.metaEpoch = e
+}
